@@ -75,9 +75,13 @@ impl Story {
 
         // Don't create choice if player has already read this content
         if choice_point.once_only() {
-            let visit_count = self
-                .get_state_mut()
-                .visit_count_for_container(choice_point.get_choice_target().as_ref().unwrap());
+            let visit_count = self.get_state_mut().visit_count_for_container(
+                choice_point.get_choice_target().as_ref().ok_or_else(|| {
+                    StoryError::InvalidStoryState(
+                        "Choice point without a valid target container.".to_owned(),
+                    )
+                })?,
+            );
             if visit_count > 0 {
                 show_choice = false;
             }
